@@ -4,7 +4,7 @@
 From Coq Require Import ZArith List Bool.
 From V Require Import base.Cal gen.RrTables rr.RRBase rr.RRNorm rr.RRMasks rr.RRIter rr.RRSpec
   rr.RRTablesThm rr.RRIterThm rr.RRRefuted rr.RRWeekDefs rr.RRWeekThm rr.RRWeekFinal rr.RRWeekCal
-  rr.RRWeekTop.
+  rr.RRWeekTop rr.RROverlay rr.RREasterThm rr.RRNwdThm rr.RRAdvanceThm rr.RRNwdCal rr.RRDaysetThm rr.RRSubdailyThm rr.RRFilterThm rr.RRFilterSpec.
 Import ListNotations.
 Open Scope Z_scope.
 
@@ -114,3 +114,219 @@ Theorem C01_rrule_iter_refuted_setpos_week : exists r x,
   ~ In x (fst (spec_iter r 100 10)).
 Proof. exact rrule_iter_refuted_setpos_week. Qed.
 Print Assumptions C01_rrule_iter_refuted_setpos_week.
+
+Theorem C01_rrule_iter_refuted_easter_week : exists r x,
+  spec_wf r = true /\ r_freq r = WEEKLY /\ r_byeaster r = Some [-105; 0] /\
+  spec_iter r 100 20 = ([x], SExhausted) /\
+  model_run r 100 30 = Some ([], TUntil).
+Proof. exact rrule_iter_refuted_easter_week. Qed.
+Print Assumptions C01_rrule_iter_refuted_easter_week.
+
+(* ------------------------------------------------------------------ layer 3: easter mask *)
+(* every Easter index, year length and list of offsets (no bound) *)
+Theorem C01_eastermask_fold_correct : forall eyday ylen offs, 0 <= ylen ->
+  exists m, build_eastermask eyday ylen offs = Ok m /\ zlen m = ylen + 7 /\
+    forall j, 0 <= j < ylen + 7 ->
+      nzb (nth (Z.to_nat j) m 0) = existsb (fun off => eyday + off =? j) offs.
+Proof. exact eastermask_fold_correct. Qed.
+Print Assumptions C01_eastermask_fold_correct.
+
+(* calendar level, for the years of C19's theorem (bound in the statement): index i is marked
+   iff that day is Easter of `year` plus a listed offset *)
+Theorem C01_eastermask_correct_partial : forall year offs, 1583 <= year <= 4099 ->
+  let yo := ord_of_ymd year 1 1 in
+  exists eo m, easter_ord year = Ok eo /\ build_eastermask (eo - yo) (year_len year) offs = Ok m /\
+    forall i, 0 <= i < year_len year + 7 ->
+      nzb (nth (Z.to_nat i) m 0) = existsb (fun x => yo + i =? easter_ord_spec year + x) offs.
+Proof. exact eastermask_correct_own_year. Qed.
+Print Assumptions C01_eastermask_correct_partial.
+
+(* ... which is the wrong year's Easter for the 7-day extension (F-C01-easter-week) *)
+Theorem C01_eastermask_extension_refuted : exists year offs i eo m,
+  easter_ord year = Ok eo /\ year_len year <= i < year_len year + 7 /\
+  build_eastermask (eo - ord_of_ymd year 1 1) (year_len year) offs = Ok m /\
+  nzb (nth (Z.to_nat i) m 0) = true /\
+  existsb (fun x => ord_of_ymd year 1 1 + i =? easter_ord_spec (year + 1) + x) offs = false.
+Proof. exact eastermask_extension_refuted. Qed.
+Print Assumptions C01_eastermask_extension_refuted.
+
+(* ------------------------------------------------------------------ layer 3: nth-weekday mask *)
+(* every weekday of 1 January, every list of ranges inside the mask, every list of (weekday, n)
+   pairs with n <> 0 (no bound): index j is marked iff for some range and pair it lies in the range,
+   has that weekday and is the n-th / |n|-th last such day of the range (RRSpec.nth_in) *)
+Theorem C01_nwdaymask_correct : forall ywd len ranges pairs,
+  0 <= ywd <= 6 -> Z.of_nat len <= 372 ->
+  (forall rg, In rg ranges -> range_ok len rg) -> (forall wn, In wn pairs -> pair_ok wn) ->
+  exists m, fold_res (nwd_range (wdm_of ywd) pairs) ranges (zeros len) = Ok m /\ length m = len /\
+    forall j, 0 <= j < Z.of_nat len ->
+      nzb (nth (Z.to_nat j) m 0) =
+      existsb (fun rg => match rg with
+                         | [first; last0] => existsb (fun wn => nwd_spec ywd first (last0 - 1) wn j) pairs
+                         | _ => false end) ranges.
+Proof. exact nwdaymask_correct. Qed.
+Print Assumptions C01_nwdaymask_correct.
+
+(* ------------------------------------------------------------------ layer 6: advance, YEARLY..DAILY *)
+(* MONTHLY: the divmod carry moves the month index by exactly `interval` *)
+Theorem C01_monthly_carry_correct : forall year month itv,
+  1 <= month <= 12 -> 1 <= itv ->
+  let '(month', year') := monthly_carry year month itv in
+  1 <= month' <= 12 /\ year' * 12 + (month' - 1) = year * 12 + (month - 1) + itv.
+Proof. exact monthly_carry_correct. Qed.
+Print Assumptions C01_monthly_carry_correct.
+
+(* WEEKLY: the two-branch wkst formula = start of the cursor's week + 7 * interval *)
+Theorem C01_weekly_advance_correct : forall day wd wk itv, 0 <= wd <= 6 -> 0 <= wk <= 6 ->
+  (if wd <? wk then day + - (wd + 1 + (6 - wk)) + itv * 7 else day + - (wd - wk) + itv * 7)
+  = day - (wd - wk) mod 7 + 7 * itv.
+Proof. exact weekly_advance_correct. Qed.
+Print Assumptions C01_weekly_advance_correct.
+
+(* WEEKLY / DAILY / sub-daily day carry: the month/year carry loop lands on the existing date whose
+   ordinal is the virtual ordinal of the over-long day number *)
+Theorem C01_fix_loop_ordinal : forall fuel year month day y' m' d',
+  1 <= month <= 12 -> 1 <= day ->
+  fix_loop fuel year month day (Cal.dim year month) = FixOk y' m' d' ->
+  ord_of_ymd y' m' d' = vord year month day /\ 1 <= m' <= 12 /\ 1 <= d' <= Cal.dim y' m'.
+Proof. exact fix_loop_ordinal. Qed.
+Print Assumptions C01_fix_loop_ordinal.
+
+(* ... and reports the MAXYEAR stop only when that ordinal lies beyond 9999-12-31 *)
+Theorem C01_fix_loop_max_only_beyond : forall fuel year month day,
+  1 <= month <= 12 -> year <= T_MAXYEAR ->
+  fix_loop fuel year month day (Cal.dim year month) = FixMax ->
+  days_before_year (T_MAXYEAR + 1) < vord year month day.
+Proof. exact fix_loop_max_only_beyond. Qed.
+Print Assumptions C01_fix_loop_max_only_beyond.
+
+(* ------------------------------------------------------------------ layer 3, calendar level *)
+(* MONTHLY, every year, every month, every list of (weekday, n<>0) pairs *)
+Theorem C01_nwdaymask_monthly_calendar : forall y month pairs,
+  1 <= month <= 12 -> (forall wn, In wn pairs -> pair_ok wn) ->
+  let ywd := weekday_of_ord (jan1 y) in
+  exists m,
+    fold_res (nwd_range (wdm_of ywd) pairs) [py_slice (mrange_of (is_leap y)) (month - 1) (month + 1)]
+             (zeros (Z.to_nat (year_len y))) = Ok m /\
+    forall j, 0 <= j < year_len y ->
+      nzb (nth (Z.to_nat j) m 0) =
+      (dbm y month <=? j) && (j <? dbm y (month + 1)) &&
+      existsb (fun wn => (weekday_of_ord (jan1 y + j) =? fst wn) &&
+                         nth_in (j + 1 - dbm y month) (dim y month) (snd wn)) pairs.
+Proof. exact nwdaymask_monthly_calendar. Qed.
+Print Assumptions C01_nwdaymask_monthly_calendar.
+
+(* YEARLY without BYMONTH *)
+Theorem C01_nwdaymask_yearly_calendar : forall y pairs,
+  (forall wn, In wn pairs -> pair_ok wn) ->
+  let ywd := weekday_of_ord (jan1 y) in
+  exists m,
+    fold_res (nwd_range (wdm_of ywd) pairs) [[0; year_len y]] (zeros (Z.to_nat (year_len y))) = Ok m /\
+    forall j, 0 <= j < year_len y ->
+      nzb (nth (Z.to_nat j) m 0) =
+      existsb (fun wn => (weekday_of_ord (jan1 y + j) =? fst wn) &&
+                         nth_in (j + 1) (year_len y) (snd wn)) pairs.
+Proof. exact nwdaymask_yearly_calendar. Qed.
+Print Assumptions C01_nwdaymask_yearly_calendar.
+
+Theorem C01_rrule_iter_refuted_year1 : exists r x rest,
+  spec_wf r = true /\ r_y r = 1 /\
+  fst (spec_iter r 100 10) = x :: rest /\
+  model_run r 100 10 = Some ([], TRaised EValue).
+Proof. exact rrule_iter_refuted_year1. Qed.
+Print Assumptions C01_rrule_iter_refuted_year1.
+
+(* ------------------------------------------------------------------ layer 5: day sets (YEARLY, DAILY) *)
+Theorem C01_ydayset_correct : forall ii, 0 <= yearlen ii ->
+  exists ds, ydayset ii = Ok (ds, 0, yearlen ii) /\
+             somes (py_slice ds 0 (yearlen ii)) = zrange 0 (yearlen ii).
+Proof. exact ydayset_correct. Qed.
+Print Assumptions C01_ydayset_correct.
+
+Theorem C01_ddayset_correct : forall ii year month day,
+  valid_ymd year month day = true ->
+  0 <= ord_of_ymd year month day - yearordinal ii < yearlen ii ->
+  let i := ord_of_ymd year month day - yearordinal ii in
+  exists ds, ddayset ii year month day = Ok (ds, i, i + 1) /\ py_slice ds i (i + 1) = [Some i].
+Proof. exact ddayset_correct. Qed.
+Print Assumptions C01_ddayset_correct.
+
+(* ------------------------------------------------------------------ sub-daily building blocks *)
+(* __mod_distance: first k in 1..n whose value is in the BY-set, with the carry; None iff no hit *)
+Theorem C01_mod_distance_spec : forall n itv base byxxx value acc, 0 < base ->
+  match mod_distance_loop n itv base byxxx value acc with
+  | Some (a, v) =>
+      exists k, 1 <= k <= Z.of_nat n /\ a * base + v = acc * base + value + k * itv /\
+                memZ v byxxx = true /\ 0 <= v < base /\
+                forall j, 1 <= j < k -> memZ ((value + j * itv) mod base) byxxx = false
+  | None => forall j, 1 <= j <= Z.of_nat n -> memZ ((value + j * itv) mod base) byxxx = false
+  end.
+Proof. exact mod_distance_loop_spec. Qed.
+Print Assumptions C01_mod_distance_spec.
+
+(* __construct_byset keeps exactly the members reachable from the start (gcd / Bezout) *)
+Theorem C01_construct_byset_reachable : forall itv start base num, 0 < base -> 0 < itv ->
+  (let g := Z.gcd itv base in (g =? 1) || ((num - start) mod g =? 0)) = true <->
+  exists j, 0 <= j /\ (start + j * itv) mod base = num mod base.
+Proof. exact construct_byset_reachable. Qed.
+Print Assumptions C01_construct_byset_reachable.
+
+(* ------------------------------------------------------------------ layer 4 (partial): BY-filter clauses *)
+(* rebuild() from the initial iterinfo establishes the table-derived slots for year y *)
+Theorem C01_rebuild_tables : forall rl y month ii',
+  1 <= y <= 9999 -> rebuild rl ii_init y month = Ok ii' -> ii_for ii' y.
+Proof. exact rebuild_ii_for. Qed.
+Print Assumptions C01_rebuild_tables.
+
+(* each table clause rejects day index i exactly when the calendar date of that index fails the
+   declarative predicate (month, day of month or its negative, yearday or its negative, weekday) *)
+Theorem C01_cl_month_correct : forall rl ii y, ii_for ii y -> forall i, 0 <= i < year_len y ->
+  cl_month rl ii i = Ok (truthy (bymonth rl) && negb (memZ (month_at y i) (opt_list (bymonth rl)))).
+Proof. exact cl_month_correct. Qed.
+Print Assumptions C01_cl_month_correct.
+
+Theorem C01_cl_monthday_correct : forall rl ii y, ii_for ii y -> forall i, 0 <= i < year_len y ->
+  cl_monthday rl ii i =
+  Ok ((nonempty (bymonthday rl) || nonempty (bynmonthday rl)) &&
+      negb (memZ (mday_at y i) (bymonthday rl)) &&
+      negb (memZ (mday_at y i - dim y (month_at y i) - 1) (bynmonthday rl))).
+Proof. exact cl_monthday_correct. Qed.
+Print Assumptions C01_cl_monthday_correct.
+
+Theorem C01_cl_yearday_correct : forall rl ii y, ii_for ii y -> forall i, 0 <= i < year_len y ->
+  cl_yearday rl ii i =
+  Ok (truthy (byyearday rl) &&
+      negb (memZ (i + 1) (opt_list (byyearday rl))) &&
+      negb (memZ (i + 1 - year_len y - 1) (opt_list (byyearday rl)))).
+Proof. exact cl_yearday_correct. Qed.
+Print Assumptions C01_cl_yearday_correct.
+
+Theorem C01_cl_weekday_plain_correct : forall rl ii y, ii_for ii y -> forall i, 0 <= i < year_len y ->
+  nwdaymask ii = None ->
+  cl_weekday rl ii i =
+  Ok (truthy (byweekday rl) && negb (memZ (weekday_of_ord (jan1 y + i)) (opt_list (byweekday rl)))).
+Proof. exact cl_weekday_plain_correct. Qed.
+Print Assumptions C01_cl_weekday_plain_correct.
+
+(* ------------------------------------------------------------------ layer 4: day_filter_correct, table family *)
+(* Full statement of DESIGN.md (not proved): for every rule in spec_wf outside the findings' guards,
+     rebuild ok -> (day index i survives the filter <-> RRSpec.day_ok r (yearordinal + i)).
+   Proved part: rules whose day-selecting parts are BYMONTH / BYMONTHDAY / BYYEARDAY / plain BYDAY
+   (incl. the start-derived defaults), through the constructor's normalisation, every year 1..9999,
+   every day of the year: the model's filter rejects the day iff the specification does. *)
+Theorem C01_day_filter_correct_partial : forall r rl ii y i,
+  normalize r = Ok rl -> spec_wf r = true ->
+  r_byweekno r = None -> r_byeaster r = None -> plain_only r = true ->
+  ii_for ii y -> nwdaymask ii = None -> 1 <= y <= 9999 -> 0 <= i < year_len y ->
+  day_rejected rl ii i = Ok (negb (day_ok r (jan1 y + i))).
+Proof. exact day_filter_correct_tables. Qed.
+Print Assumptions C01_day_filter_correct_partial.
+
+(* the same with BYWEEKNO, inside the guard of F-C01-weekno (members in -51..51), years 2..9999, on
+   the iterinfo that rebuild() produces: composes layers 1, 2 and 4 and the constructor *)
+Theorem C01_day_filter_correct_weekno_guarded : forall r rl y month ii i,
+  normalize r = Ok rl -> spec_wf r = true -> r_byeaster r = None -> plain_only r = true ->
+  all_opt (r_byweekno r) weekno_safe = true ->
+  2 <= y <= 9999 -> rebuild rl ii_init y month = Ok ii -> 0 <= i < year_len y ->
+  day_rejected rl ii i = Ok (negb (day_ok r (jan1 y + i))).
+Proof. exact day_filter_correct_weekno_guarded. Qed.
+Print Assumptions C01_day_filter_correct_weekno_guarded.
